@@ -760,8 +760,10 @@ def check_pbkdf2(ck_ob, mod, label):
             n += _pb_tail(c, f, ex, p, ev[1:], outs, None, None, cur, rem, pcur, remphi, bnphi, BN, full, remc2, ev[0][3][0], from_chain=True, arr=arr)
             continue
         unrec.append("%s (end %s)" % (names[:5], p.end[0]))
-    if unrec and not nviol[0]:
-        # a path class whose call sequence is none of the recognised segments, and nothing recognised is wrong: another shape
+    if unrec and (not nviol[0] or any(u_.startswith("[] (end backedge") or u_.startswith("[] (end loop-entry") for u_ in unrec)):
+        # a path class whose call sequence is none of the recognised segments, and nothing recognised is wrong: another shape.  Likewise
+        # when a path without any call ends at a loop (the iteration or entry of a helper loop the executor could not follow):
+        # the values compared above were then computed without that loop's effect, so their mismatch means nothing
         raise Broken("tinyjambu_pbkdf2: path class(es) with an unrecognised call sequence %s: this shape is not analysed" % unrec[:2])
     if unrec:
         c("F", False, "unexpected-segment", "", "besides the deviations reported, unexpected event sequence %s" % unrec[:2])
